@@ -77,6 +77,26 @@ def check(run):
                "resumes) - once Do has returned nothing is attached" % rounds,
                rc == 0 and not st.get("late_attached") and "error" not in st, json.dumps(st)[:1500])
     run.cov["shutdown_race"] = {k: st.get(k) for k in ("rounds", "do_returned_first", "attempt_admitted_first")}
+    # event listeners which come and go (library use): shells live and die unheard, then somebody listens
+    plans = [[0, 0], [1, 0], [2, 3], [0, 1], [600, 1]] if run.tier == "quick" else [[a, b] for a in (0, 1, 2, 5) for b in (0, 1, 4)] + [[600, 1], [1500, 600]]
+    outl = os.path.join(run.rundir, "listen.json")
+    try:
+        rc, o, e = vlib.sh([binp, "-test.run", "^TestVerifListeners$", "-test.count=1"], cwd=run.rundir, timeout=900,
+                           env=dict(os.environ, VERIF_OUT=outl, VERIF_LISTEN=json.dumps(plans)))
+        lres = json.load(open(outl))
+    except Exception as ex:
+        rc, lres = 1, [{"plan": None, "problem": "harness: %s" % ex, "windows": []}]
+    badl = [r for r in lres if r.get("problem") or any(w != ["connected", "disconnected"] for w in r.get("windows") or []) or len(r.get("windows") or []) != 2]
+    for r in badl[:1]:
+        if not str(r.get("problem")).startswith("harness"):
+            run.violation("late-listener", "after shells lived and died while no event listener was registered, a listener which registered did not get exactly one "
+                          "connected and one disconnected event for the next shell (or a shell in the series was not accepted / torn down)",
+                          {"stream": "listeners", "input": {"shells_without_listener_before_each_listening_window": r.get("plan")}, "detail": r})
+    run.oblige("event listeners come and go: %d plans (0 to 1500 shells in series with nobody listening, then a listener, a shell, the listener leaves, again) - every "
+               "shell is accepted and torn down with one 'gone' notice and each listener gets exactly [connected, disconnected]" % len(plans),
+               rc == 0 and not badl and len(lres) == len(plans), json.dumps(badl)[:1500])
+    run.stream("listeners", len(plans), len(plans), "real scheduler; series of shells ending by EOF / input cancel / output cancel with no listener, then a listener "
+               "registers for one shell and leaves; twice per plan", [{"plans": plans}])
     run.assumptions += ["'nothing keeps running' is observed as: no goroutine with a Broker frame after all readers returned EOF and all contexts were "
                         "cancelled, inside testing/synctest; the proof side covers the bookkeeping (slots, key, wait group)"]
     run.trusted += ["harness/overlay/iobroker", "props/brokerlib.py", "coq/Model/Broker.v tied by this correspondence"]
